@@ -14,278 +14,6 @@ use std::ops;
 verus! {
 
 //@ include units/shared/miner_funds.inc
-//@ item actors/miner/src/partition_state.rs PowerPair
-//@ include units/shared/power_pair.inc
-//@ item actors/miner/src/quantize.rs QuantSpec attr="#[derive(Clone, Copy)]"
-//@ item actors/miner/src/deadline_info.rs DeadlineInfo attr="#[derive(Clone, Copy)]"
-//@ item actors/miner/src/deadline_state.rs Deadlines
-//@ item actors/miner/src/deadline_state.rs Deadline
-//@ item actors/miner/src/expiration_queue.rs ExpirationSet
-//@ item actors/miner/src/state.rs AdvanceDeadlineResult
-//@ include prelude/miner_deadline_assumed.rs
-impl CborVal for Deadline { type Base = Deadline; open spec fn base(&self) -> Deadline { *self } }
-impl CborVal for Deadlines { type Base = Deadlines; open spec fn base(&self) -> Deadlines { *self } }
-
-// ======================= deadline arithmetic (real code; spec twins over vstd's rust_rem/rust_div = Rust's truncating % and /) =======================
-use vstd::arithmetic::div_mod::{rust_rem, rust_div};
-pub open spec fn quantize_up_spec(q: QuantSpec, epoch: int) -> int {
-    let offset = rust_rem(q.offset as int, q.unit as int);
-    let remainder = rust_rem(epoch - offset, q.unit as int);
-    let quotient = rust_div(epoch - offset, q.unit as int);
-    if remainder == 0 || epoch - offset < 0 { q.unit * quotient + offset } else { q.unit * (quotient + 1) + offset }
-}
-pub open spec fn quantize_down_spec(q: QuantSpec, epoch: int) -> int {
-    let next = quantize_up_spec(q, epoch);
-    if epoch == next { next } else { next - q.unit }
-}
-
-
-pub proof fn lemma_trunc(x: int, u: int)
-    requires u > 0
-    ensures
-        x >= 0 ==> x - u < u * rust_div(x, u) <= x,
-        x < 0 ==> x <= u * rust_div(x, u) < x + u,
-        rust_rem(x, u) == x - u * rust_div(x, u),
-        -u < rust_rem(x, u) < u,
-        u * (rust_div(x, u) + 1) == u * rust_div(x, u) + u,
-{
-    if x >= 0 {
-        vstd::arithmetic::div_mod::lemma_fundamental_div_mod(x, u);
-        vstd::arithmetic::div_mod::lemma_mod_bound(x, u);
-    } else {
-        vstd::arithmetic::div_mod::lemma_fundamental_div_mod(-x, u);
-        vstd::arithmetic::div_mod::lemma_mod_bound(-x, u);
-        assert(u * -((-x) / u) == -(u * ((-x) / u))) by (nonlinear_arith);
-    }
-    assert(u * (rust_div(x, u) + 1) == u * rust_div(x, u) + u) by (nonlinear_arith);
-}
-/// quantize_up rounds up to the next point of the lattice offset + k*unit: result in [epoch, epoch + unit)
-pub proof fn lemma_quantize_up_range(q: QuantSpec, epoch: int)
-    requires q.unit > 0
-    ensures epoch <= quantize_up_spec(q, epoch) < epoch + q.unit
-{
-    let off = rust_rem(q.offset as int, q.unit as int);
-    lemma_trunc(q.offset as int, q.unit as int);
-    lemma_trunc(epoch - off, q.unit as int);
-}
-pub open spec fn small(x: int) -> bool { -0x1000_0000_0000_0000 < x < 0x1000_0000_0000_0000 }
-//@ fn actors/miner/src/quantize.rs QuantSpec::quantize_up ops=keep
-    requires self.unit > 0, small(epoch as int), small(self.offset as int), small(self.unit as int),
-    ensures r == quantize_up_spec(*self, epoch as int), epoch <= r < epoch + self.unit,
-//@ entry
-        proof {
-            let off = rust_rem(self.offset as int, self.unit as int);
-            lemma_trunc(self.offset as int, self.unit as int);
-            lemma_trunc(epoch - off, self.unit as int);
-        }
-//@ end
-//@ fn actors/miner/src/quantize.rs QuantSpec::quantize_down ops=keep
-    requires self.unit > 0, small(epoch as int), small(self.offset as int), small(self.unit as int),
-    ensures r == quantize_down_spec(*self, epoch as int), epoch - self.unit < r <= epoch,
-//@ end
-
-// ======================= DeadlineInfo (real deadline_info.rs / deadlines.rs) =======================
-/// the proving-period geometry of the network policy: `wpost_period_deadlines` windows of `wpost_challenge_window` epochs tile the period
-pub open spec fn pol_ok(p: Policy) -> bool {
-    &&& 0 < p.wpost_period_deadlines <= 0x1_0000
-    &&& 0 < p.wpost_challenge_window <= 0x1_0000_0000
-    &&& p.wpost_proving_period == p.wpost_period_deadlines * p.wpost_challenge_window
-    &&& 0 <= p.wpost_challenge_lookback <= 0x1_0000_0000
-    &&& 0 <= p.fault_declaration_cutoff <= 0x1_0000_0000
-    &&& 0 <= p.fault_max_age <= 0x1_0000_0000_0000
-}
-pub open spec fn di_of(p: Policy, period_start: ChainEpoch, idx: u64, cur: ChainEpoch) -> DeadlineInfo {
-    if idx < p.wpost_period_deadlines {
-        let open = (period_start + idx * p.wpost_challenge_window) as ChainEpoch;
-        DeadlineInfo { current_epoch: cur, period_start, index: idx, open, close: (open + p.wpost_challenge_window) as ChainEpoch,
-            challenge: (open - p.wpost_challenge_lookback) as ChainEpoch, fault_cutoff: (open - p.fault_declaration_cutoff) as ChainEpoch,
-            w_post_period_deadlines: p.wpost_period_deadlines, w_post_proving_period: p.wpost_proving_period, w_post_challenge_window: p.wpost_challenge_window,
-            w_post_challenge_lookback: p.wpost_challenge_lookback, fault_declaration_cutoff: p.fault_declaration_cutoff }
-    } else {
-        let after = (period_start + p.wpost_proving_period) as ChainEpoch;
-        DeadlineInfo { current_epoch: cur, period_start, index: idx, open: after, close: after, challenge: after, fault_cutoff: 0,
-            w_post_period_deadlines: p.wpost_period_deadlines, w_post_proving_period: p.wpost_proving_period, w_post_challenge_window: p.wpost_challenge_window,
-            w_post_challenge_lookback: p.wpost_challenge_lookback, fault_declaration_cutoff: p.fault_declaration_cutoff }
-    }
-}
-/// the deadline the cron is at, computed from the period offset and the current epoch alone
-pub open spec fn di_at(p: Policy, seed: ChainEpoch, cur: ChainEpoch) -> DeadlineInfo {
-    let ps = quantize_down_spec(QuantSpec { unit: p.wpost_proving_period, offset: seed }, cur as int);
-    di_of(p, ps as ChainEpoch, rust_div(cur - ps, p.wpost_challenge_window as int) as u64, cur)
-}
-pub proof fn lemma_pol(p: Policy)
-    requires pol_ok(p)
-    ensures 0 < p.wpost_proving_period <= 0x1_0000_0000_0000, p.wpost_proving_period == p.wpost_challenge_window * p.wpost_period_deadlines
-{
-    assert(0 < p.wpost_period_deadlines * p.wpost_challenge_window <= 0x1_0000 * 0x1_0000_0000) by (nonlinear_arith)
-        requires 0 < p.wpost_period_deadlines <= 0x1_0000, 0 < p.wpost_challenge_window <= 0x1_0000_0000;
-    assert(p.wpost_period_deadlines * p.wpost_challenge_window == p.wpost_challenge_window * p.wpost_period_deadlines) by (nonlinear_arith);
-}
-pub proof fn lemma_idx(d: int, w: int, n: int)
-    requires 0 <= d < n * w, w > 0, n > 0
-    ensures 0 <= rust_div(d, w) < n, w * rust_div(d, w) <= d < w * rust_div(d, w) + w, 0 <= rust_div(d, w) * w <= d, rust_div(d, w) * w == w * rust_div(d, w)
-{
-    lemma_trunc(d, w);
-    assert(rust_div(d, w) < n) by (nonlinear_arith) requires w * rust_div(d, w) <= d, d < n * w, w > 0;
-    assert(rust_div(d, w) >= 0) by (nonlinear_arith) requires d - w < w * rust_div(d, w), d >= 0, w > 0;
-    assert(rust_div(d, w) * w == w * rust_div(d, w)) by (nonlinear_arith);
-}
-
-//@ fn actors/miner/src/deadline_info.rs DeadlineInfo::new ops=keep
-    requires
-        small(period_start as int), deadline_idx <= 0x1_0000, 0 <= w_post_challenge_window <= 0x1_0000_0000, 0 <= w_post_challenge_lookback <= 0x1_0000_0000,
-        0 <= fault_declaration_cutoff <= 0x1_0000_0000, 0 <= w_post_proving_period <= 0x1_0000_0000_0000,
-    ensures
-        r == di_of(Policy { wpost_period_deadlines: w_post_period_deadlines, wpost_proving_period: w_post_proving_period, wpost_challenge_window: w_post_challenge_window,
-            wpost_challenge_lookback: w_post_challenge_lookback, fault_declaration_cutoff: fault_declaration_cutoff, ..rt_policy() }, period_start, deadline_idx, current_epoch),
-//@ entry
-        proof { assert(0 <= deadline_idx as int * w_post_challenge_window as int <= 0x1_0000 * 0x1_0000_0000) by (nonlinear_arith)
-            requires 0 <= deadline_idx <= 0x1_0000, 0 <= w_post_challenge_window <= 0x1_0000_0000; }
-//@ end
-//@ fn actors/miner/src/deadline_info.rs DeadlineInfo::period_started ops=keep
-    ensures r == (self.current_epoch >= self.period_start),
-//@ end
-//@ fn actors/miner/src/deadline_info.rs DeadlineInfo::last ops=keep
-    requires self.close > i64::MIN,
-    ensures r == self.close - 1,
-//@ end
-//@ fn actors/miner/src/deadlines.rs new_deadline_info ops=keep
-    requires pol_ok(*policy), small(proving_period_start as int), deadline_idx <= 0x1_0000,
-    ensures r == di_of(*policy, proving_period_start, deadline_idx, current_epoch),
-//@ entry
-        proof { lemma_pol(*policy); }
-//@ end
-//@ fn actors/miner/src/deadlines.rs new_deadline_info_from_offset_and_epoch ops=keep
-    requires pol_ok(*policy), small(period_start_seed as int), 0 <= current_epoch < 0x1000_0000_0000_0000,
-    ensures
-        r == di_at(*policy, period_start_seed, current_epoch),
-        // the proving period and the deadline window found contain the current epoch; the index is a valid deadline
-        r.index < policy.wpost_period_deadlines,
-        r.period_start <= current_epoch < r.period_start + policy.wpost_proving_period,
-        r.open <= current_epoch < r.close, r.close == r.open + policy.wpost_challenge_window,
-        r.open == r.period_start + r.index * policy.wpost_challenge_window,
-//@ entry
-        proof { lemma_pol(*policy); }
-//@ after "let current_period_start"
-        proof { lemma_idx(current_epoch - current_period_start, policy.wpost_challenge_window as int, policy.wpost_period_deadlines as int); }
-//@ end
-//@ fn actors/miner/src/deadlines.rs quant_spec_for_deadline ops=keep
-    requires di.close > i64::MIN,
-    ensures r.unit == policy.wpost_proving_period, r.offset == di.close - 1,
-//@ end
-//@ fn actors/miner/src/state.rs State::deadline_info ops=keep
-    requires pol_ok(*policy), small(self.proving_period_start as int), 0 <= current_epoch < 0x1000_0000_0000_0000,
-    ensures
-        r == di_at(*policy, self.proving_period_start, current_epoch),
-        r.index < policy.wpost_period_deadlines,
-        r.period_start <= current_epoch < r.period_start + policy.wpost_proving_period,
-        r.open <= current_epoch < r.close, r.close == r.open + policy.wpost_challenge_window,
-//@ end
-
-/// frame of save_deadlines: only the `deadlines` root moves
-pub open spec fn st_rest_but_deadlines(a: State, b: State) -> bool {
-    &&& a.info == b.info && a.pre_committed_sectors == b.pre_committed_sectors && a.pre_committed_sectors_cleanup == b.pre_committed_sectors_cleanup
-    &&& a.allocated_sectors == b.allocated_sectors && a.sectors == b.sectors && a.proving_period_start == b.proving_period_start
-    &&& a.current_deadline == b.current_deadline && a.early_terminations == b.early_terminations && a.deadline_cron_active == b.deadline_cron_active
-    &&& a.pre_commit_deposits == b.pre_commit_deposits && a.locked_funds == b.locked_funds && a.vesting_funds == b.vesting_funds
-    &&& a.fee_debt == b.fee_debt && a.initial_pledge == b.initial_pledge
-}
-
-// ======================= Deadlines container / persistence (real deadline_state.rs, state.rs) =======================
-pub open spec fn deadlines_of(s: State) -> Option<Deadlines> { cbor_decode::<Deadlines>(s.deadlines) }
-pub open spec fn deadline_at(ds: Deadlines, idx: int) -> Option<Deadline> {
-    if 0 <= idx < ds.due@.len() { cbor_decode::<Deadline>(ds.due@[idx]) } else { None }
-}
-//@ fn actors/miner/src/deadline_state.rs Deadline::validate_state ops=keep
-    ensures r.is_ok() <==> self.live_sectors <= self.total_sectors && self.faulty_power.raw@ >= 0 && self.faulty_power.qa@ >= 0,
-//@ end
-//@ fn actors/miner/src/deadline_state.rs Deadline::is_live ops=keep
-    ensures r == (self.live_sectors > 0 || !(self.partitions_posted@ =~= vstd::set::Set::<u64>::empty())
-        || self.partitions != self.partitions_snapshot || self.optimistic_post_submissions != self.optimistic_post_submissions_snapshot),
-//@ end
-//@ fn actors/miner/src/deadline_state.rs Deadlines::load_deadline
-    requires idx < 0x1_0000_0000,       // `idx as usize` is lossless on every target (callers pass validated deadline indices)
-    ensures
-        r.is_ok() ==> deadline_at(*self, idx as int) == Some(r->Ok_0),
-        deadline_at(*self, idx as int).is_none() ==> r.is_err(),
-//@ end
-//@ fn actors/miner/src/deadline_state.rs Deadlines::update_deadline
-    requires old(self).due@.len() == policy.wpost_period_deadlines, policy.wpost_period_deadlines <= 0x1_0000,   // representation invariant set up by Deadlines::new
-    ensures
-        r.is_ok() ==> deadline_idx < policy.wpost_period_deadlines && deadline_idx < old(self).due@.len()
-            && final(self).due@.len() == old(self).due@.len()
-            && deadline_at(*final(self), deadline_idx as int) == Some(*deadline)
-            && (forall|i: int| 0 <= i < old(self).due@.len() && i != deadline_idx ==> final(self).due@[i] == old(self).due@[i]),
-        r.is_err() ==> final(self).due@ == old(self).due@,
-//@ end
-//@ fn actors/miner/src/state.rs State::load_deadlines
-    ensures r.is_ok() ==> deadlines_of(*self) == Some(r->Ok_0), deadlines_of(*self).is_none() ==> r.is_err(),
-//@ end
-//@ fn actors/miner/src/state.rs State::save_deadlines
-    ensures
-        st_rest_but_deadlines(*old(self), *final(self)),
-        r.is_ok() ==> deadlines_of(*final(self)) == Some(deadlines),
-        r.is_err() ==> final(self).deadlines == old(self).deadlines,
-//@ end
-
-// ======================= the deadline cron step (real state.rs State::advance_deadline) =======================
-pub open spec fn dl_live(d: Deadline) -> bool {
-    d.live_sectors > 0 || !(d.partitions_posted@ =~= vstd::set::Set::<u64>::empty())
-        || d.partitions != d.partitions_snapshot || d.optimistic_post_submissions != d.optimistic_post_submissions_snapshot
-}
-pub open spec fn money_eq_but_pledge(a: State, b: State) -> bool {
-    a.pre_commit_deposits == b.pre_commit_deposits && a.locked_funds == b.locked_funds && a.vesting_funds == b.vesting_funds && a.fee_debt == b.fee_debt
-}
-pub open spec fn ids_eq(a: State, b: State) -> bool {
-    a.info == b.info && a.pre_committed_sectors == b.pre_committed_sectors && a.pre_committed_sectors_cleanup == b.pre_committed_sectors_cleanup
-        && a.allocated_sectors == b.allocated_sectors && a.sectors == b.sectors && a.deadline_cron_active == b.deadline_cron_active
-}
-//@ fn actors/miner/src/state.rs State::advance_deadline
-    requires
-        pol_ok(*policy), small(old(self).proving_period_start as int), 0 <= current_epoch < 0x1000_0000_0000_0000,
-        // representation invariant of the deadlines table (Deadlines::new)
-        deadlines_of(*old(self)).is_some() ==> deadlines_of(*old(self))->Some_0.due@.len() == policy.wpost_period_deadlines,
-    ensures
-        ids_eq(*old(self), *final(self)), money_eq_but_pledge(*old(self), *final(self)),
-        r.is_ok() ==> ({
-            let di = di_at(*policy, old(self).proving_period_start, current_epoch);
-            let ds0 = deadlines_of(*old(self))->Some_0;
-            let d0 = deadline_at(ds0, di.index as int)->Some_0;
-            let quant = QuantSpec { unit: policy.wpost_proving_period, offset: (di.close - 1) as ChainEpoch };
-            let fexp = (di.close - 1 + policy.fault_max_age) as ChainEpoch;
-            let d1 = dl_end_deadline(d0, quant, fexp, old(self).sectors);
-            let d2 = dl_pop_deadline(d1, (di.close - 1) as ChainEpoch, quant);
-            let exp = dl_pop_set(d1, (di.close - 1) as ChainEpoch, quant);
-            // the deadline processed is the one whose window contains the current epoch ...
-            &&& di.index < policy.wpost_period_deadlines && di.open <= current_epoch < di.close
-            // ... and the cursor moves to the next one, rolling the proving period over after the last
-            &&& final(self).current_deadline == (di.index + 1) % (policy.wpost_period_deadlines as int)
-            &&& final(self).proving_period_start == (if (di.index + 1) % (policy.wpost_period_deadlines as int) == 0 { di.period_start + policy.wpost_proving_period } else { old(self).proving_period_start as int })
-            &&& deadlines_of(*old(self)).is_some() && deadline_at(ds0, di.index as int).is_some()
-            // a dead deadline: nothing else happens
-            &&& (!dl_live(d0) ==> final(self).early_terminations == old(self).early_terminations && final(self).deadlines == old(self).deadlines
-                    && final(self).initial_pledge == old(self).initial_pledge && r->Ok_0.pledge_delta@ == 0
-                    && r->Ok_0.power_delta.raw@ == 0 && r->Ok_0.power_delta.qa@ == 0)
-            &&& (dl_live(d0) ==> {
-                // "every early-terminated sector is charged": sectors the cron expires early flag THIS deadline for process_early_terminations
-                &&& final(self).early_terminations@ == (if exp.early_sectors@ =~= vstd::set::Set::<u64>::empty() { old(self).early_terminations@ } else { old(self).early_terminations@.insert(di.index) })
-                // pledge of on-time expirations is released, exactly; early ones keep theirs until the fee is assessed
-                &&& r->Ok_0.pledge_delta@ == -exp.on_time_pledge@
-                &&& final(self).initial_pledge@ == old(self).initial_pledge@ - exp.on_time_pledge@
-                // power: what process_deadline_end reported minus the active power that expired
-                &&& r->Ok_0.power_delta.raw@ == dl_end_power_delta(d0, quant, fexp, old(self).sectors).raw@ - exp.active_power.raw@
-                &&& r->Ok_0.power_delta.qa@ == dl_end_power_delta(d0, quant, fexp, old(self).sectors).qa@ - exp.active_power.qa@
-                // exactly that deadline is written back, with the value the two operations produced
-                &&& deadlines_of(*final(self)).is_some() && ({
-                    let ds1 = deadlines_of(*final(self))->Some_0;
-                    ds1.due@.len() == ds0.due@.len() && deadline_at(ds1, di.index as int) == Some(d2)
-                        && (forall|i: int| 0 <= i < ds0.due@.len() && i != di.index ==> ds1.due@[i] == ds0.due@[i])
-                })
-            })
-        }),
-//@ entry
-        proof { lemma_pol(*policy); }
-//@ end
-
+//@ include units/shared/miner_deadline.inc
 } // verus!
 fn main() {}
